@@ -217,6 +217,15 @@ class DLPOLY_PairTabulationFactory(PairTabulationFactory):
       raise ConfigurationException("A DL_POLY TABLE file needs more than 4 rows (the grid step is cutoff/(nr-4)). Number of rows specified = {} ".format(cutoffs.nr))
     return cutoffs
 
+class LAMMPS_PairTabulationFactory(PairTabulationFactory):
+  """PairTabulationFactory that checks that enough rows are requested for a LAMMPS pair_style table file"""
+
+  def extract_cutoffs(self, cp):
+    cutoffs = super(LAMMPS_PairTabulationFactory, self).extract_cutoffs(cp)
+    if cutoffs.nr < 3:
+      raise ConfigurationException("A LAMMPS table needs nr of at least 3 (the r=0 row is omitted and rows are spaced cutoff/(nr-1) apart). Number of rows specified = {} ".format(cutoffs.nr))
+    return cutoffs
+
 class ADP_EAMTabulationFactory(EAMTabulationFactory):
   """EAMTabulationFactory which creates the additional dipole and quadrupole objects 
   required by the ADP EAM extension"""
@@ -244,7 +253,7 @@ class ADP_EAMTabulationFactory(EAMTabulationFactory):
 
 """Target name to factory objects"""
 TABULATION_FACTORIES = {
-  "LAMMPS"       :  PairTabulationFactory("LAMMPS", LAMMPS_PairTabulation),
+  "LAMMPS"       :  LAMMPS_PairTabulationFactory("LAMMPS", LAMMPS_PairTabulation),
   "DLPOLY"       :  DLPOLY_PairTabulationFactory("DLPOLY", DLPoly_PairTabulation),
   "GULP"         :  PairTabulationFactory("GULP", GULP_PairTabulation),
   "excel"        :  PairTabulationFactory("excel", Excel_PairTabulation),
